@@ -1332,6 +1332,56 @@ def _view_component(view, coll):
     return False, skip
 
 
+def window_of(rng, eng):
+    """(collection Y, chunk size C) when `rng` = lv .. min(lv + C, len(Y)) and lv is a loop-carried cursor that starts at 0 and is set
+    to that upper bound at the end of every iteration: the slices X[rng] of successive iterations are the chunks of size C of X
+    (`while start < n { let end = (start + C).min(n); f(&x[start..end]); start = end }` is `for c in x.chunks(C) { f(c) }`).
+    Whether the loop runs to exhaustion is a question about its exit test, answered where loops are classified."""
+    if rng.tag != 'range' or eng is None:
+        return None
+    lo, hi = rng[1], rng[2]
+    if lo.tag != 'lv' or hi.tag != 'call' or hi[1].split('::')[-1] != 'min' or len(hi[2]) != 2:
+        return None
+    for step, bound in ((hi[2][0], hi[2][1]), (hi[2][1], hi[2][0])):
+        st = step
+        if st.tag == 'call' and st[1].split('::')[-1] in ('saturating_add', 'wrapping_add') and len(st[2]) == 2:
+            a, c = st[2]
+        elif st.tag == 'binop' and st[1] == 'Add':
+            a, c = st[2], st[3]
+        else:
+            continue
+        if a is not lo:
+            a, c = c, a
+        if a is not lo or c.tag != 'const' or not isinstance(c[1], int) or isinstance(c[1], bool) or c[1] < 1:
+            continue
+        if not (bound.tag == 'call' and bound[1].split('::')[-1] == 'len' and len(bound[2]) == 1):
+            continue
+        try:
+            defs = eng.lv_defs(lo)
+        except Exception:
+            return None
+        inits = [d for d in defs if d.tag == 'const' and d[1] == 0 and not isinstance(d[1], bool)]
+        upds = [d for d in defs if d is hi]
+        if len(defs) == 2 and len(inits) == 1 and len(upds) == 1:
+            return bound[2][0], c
+    return None
+
+
+def _equal_length(eqs, a, b):
+    """do the established length equalities (pairs, closed under transitivity) relate collections a and b?"""
+    pairs = list(eqs() if callable(eqs) else eqs)
+    reach = [a]
+    changed = True
+    while changed:
+        changed = False
+        for x, y in pairs:
+            for p_, q_ in ((x, y), (y, x)):
+                if any(_same_collection(p_, r) for r in reach) and not any(_same_collection(q_, r) for r in reach):
+                    reach.append(q_)
+                    changed = True
+    return any(_same_collection(b, r) for r in reach)
+
+
 def _same_collection(a, b):
     while a.tag == 'mut':
         a = a[1]
@@ -1359,13 +1409,21 @@ def mk_elemat(coll, i, eqs=()):
             ok, skip = _view_component(view, coll)
             if not ok:
                 # indexed with the counter of a walk over another collection that a dominating guard makes equally long
-                for a, b in (eqs() if callable(eqs) else eqs):
-                    for x, y in ((a, b), (b, a)):
-                        if _same_collection(x, coll) and _view_component(view, y)[0]:
-                            ok, skip = True, _view_component(view, y)[1]
+                pairs_ = list(eqs() if callable(eqs) else eqs)
+                cands_ = {id(t_): t_ for pr in pairs_ for t_ in pr}
+                for y in cands_.values():
+                    if _view_component(view, y)[0] and _equal_length(pairs_, y, coll):
+                        ok, skip = True, _view_component(view, y)[1]
             if ok:
                 el = mk_elem(CURRENT, coll)
                 return mk_via('skip', el) if skip else el
+    if i.tag == 'range' and i[1].tag == 'lv' and CURRENT is not None:
+        w = window_of(i, CURRENT)
+        if w is not None:
+            Y, C = w
+            ok = _same_collection(Y, coll) or _equal_length(eqs, Y, coll)
+            if ok:
+                return T('elem', T('adapt', 'chunks', coll, C))
     return T('elemat', coll, i)
 
 
